@@ -212,6 +212,10 @@ def build_generated(spec):
                 las.params.append(lasio.HeaderItem(e[1], value=3))
             elif e[0] == "addc":
                 las.append_curve(e[1], np.array([1.5, np.nan]))
+            elif e[0] == "idx":
+                # an in-place correction of one index sample (the last value, hence STOP, is kept when e[1] == 0)
+                if len(las.curves) and las.curves[0].data.dtype.kind == "f" and len(las.curves[0].data) > e[1]:
+                    las.curves[0].data[e[1]] = las.curves[0].data[e[1]] - 0.25
         except (IndexError, KeyError):
             pass
     return las
@@ -225,8 +229,10 @@ def gen_spec(rng):
             "mc": rng.choice(["preserve", "upper", "lower"]),
             "text_curve": rng.random() < 0.3, "edits": []}
     for _ in range(rng.randint(0, 3)):
-        k = rng.choice(["delc", "delp", "delw", "addp", "addc"])
-        if k in ("delc", "delp", "delw"):
+        k = rng.choice(["delc", "delp", "delw", "addp", "addc", "idx"])
+        if k == "idx":
+            spec["edits"].append([k, rng.choice([0, 0, 1])])
+        elif k in ("delc", "delp", "delw"):
             spec["edits"].append([k, rng.choice([0, 1, 2, -1, 4])])
         else:
             spec["edits"].append([k, rng.choice(names + ["A:1"])])
